@@ -215,7 +215,7 @@ class C01(Property):
         geom, grid = gen.build_cart(spec["grid"])
         dim = geom.dim
         drops = spec["droplets"]
-        em = Emulsion([SphericalDroplet(np.array(d["position"], float), d["radius"]) for d in drops])
+        em = Emulsion([SphericalDroplet(*gen.as_given(d["position"], d["radius"], d)) for d in drops])
         field = em.get_phasefield(grid)
         if len(drops) % 2 == 0:
             # the same emulsion rendered and located first on a sibling grid (other periodicity, other spacing) must leave no trace
@@ -316,7 +316,7 @@ class C01(Property):
                 ctx.skip("knife-edge")
                 return
             covered.append(dist < d["radius"])
-        em = Emulsion([SphericalDroplet(np.array([0.0, 0.0, d["z"]]), d["radius"]) for d in drops])
+        em = Emulsion([SphericalDroplet(*gen.as_given([0.0, 0.0, d["z"]], d["radius"], d)) for d in drops])
         res = locate_droplets(em.get_phasefield(grid))
         if not ctx.require(len(res) == len(drops), "cyl:count", f"{len(drops)} droplets rendered, {len(res)} located"):
             return
